@@ -142,10 +142,12 @@ func lenClass(l int) string {
 
 // c03Chunks: Layout = [split1, split2, kind1, kind2, kind3] over three text pieces.
 func c03Chunks(r *core.Run, p C03Case) {
-	pieces := [][]byte{c03Text[:p.Layout[0]], c03Text[40 : 40+p.Layout[1]], c03Text[10 : 10+p.Layout[1]+7]}
+	low := []byte{1, 1, 2, 1, 2}
+	pc := func(b []byte) []byte { return append(append([]byte(nil), low...), b...) }
+	pieces := [][]byte{pc(c03Text[:p.Layout[0]]), pc(c03Text[40 : 40+p.Layout[1]]), pc(c03Text[10 : 10+p.Layout[1]+7])}
 	kinds := p.Layout[2:]
 	g := ref.NewLZMA2Gen()
-	propsMenu := []ref.Props{{LC: 3, LP: 0, PB: 2}, {LC: 0, LP: 2, PB: 0}, {LC: 1, LP: 3, PB: 4}}
+	propsMenu := []ref.Props{{LC: 3, LP: 0, PB: 2}, {LC: 1, LP: 1, PB: 0}, {LC: 2, LP: 0, PB: 4}}
 	a := ref.NewChunkAutomaton()
 	for i, k := range kinds {
 		if k == 0 {
